@@ -91,6 +91,14 @@ ASMJIT_VARAPI const ArchTraits _arch_traits[uint32_t(Arch::kMaxValue) + 1] = {
 
   // MIPS32/MIPS64
   no_arch_traits,
+  no_arch_traits,
+
+  // Big-endian variants (ARM, AArch64, Thumb, reserved, MIPS32, MIPS64).
+  no_arch_traits,
+  no_arch_traits,
+  no_arch_traits,
+  no_arch_traits,
+  no_arch_traits,
   no_arch_traits
 };
 
